@@ -36,7 +36,9 @@ OPT_PI = ("opt", ("ptr", True, I32))
 REC_H = ("rec", "H", (("k", I32), ("p", PTR_P), ("o", OPT_PI)))      # a struct that holds pointers
 EU_BI = ("eu", BOOL, I32)          # bool!i32
 EU_PL = ("eu", REC_P, I64)         # P!i64
-SUMS = [OPT_I32, OPT_I32, OPT_P, ENUM_E, EU_BI, EU_BI, EU_PL]
+EU_EL = ("eu", ENUM_E, I64)        # E!i64: an enum as the error type
+OPT_E = ("opt", ENUM_E)            # ?E
+SUMS = [OPT_I32, OPT_I32, OPT_P, ENUM_E, EU_BI, EU_BI, EU_PL, EU_EL, OPT_E]
 
 
 def tyname(t):
@@ -233,6 +235,11 @@ class Gen:
 
     def sum_lit(self, t, d=0):
         k, pt, _ = self.r.choice(self.variants(t))
+        if pt == ENUM_E and t in (EU_EL, OPT_E):
+            # the variant itself (not yet converted to its enum) goes into the optional / error union
+            inner = self.sum_lit(ENUM_E, d + 1)
+            inner["raw"] = True
+            return {"e": "variant", "k": k, "x": inner, "sty": t}
         return {"e": "variant", "k": k, "x": self.expr(pt, d + 1) if pt is not None else NONE, "sty": t}
 
     def stmt_sum(self):
@@ -277,6 +284,9 @@ class Gen:
                                  if t[0] == "enum" else {"e": "var", "n": b, "ty": vpt}})
                 elif vpt == BOOL:
                     body.append({"s": "print", "ty": BOOL, "x": {"e": "var", "n": b, "ty": BOOL}})
+                elif vpt == ENUM_E:
+                    for ek in (1, 3):
+                        body.append({"s": "print", "ty": BOOL, "x": {"e": "isvar", "x": {"e": "var", "n": b, "ty": ENUM_E}, "k": ek, "sty": ENUM_E}})
                 else:
                     body.append({"s": "print", "ty": I32, "x": {"e": "fld", "x": {"e": "var", "n": b, "ty": vpt}, "f": "a"}})
             body.append({"s": "print", "ty": I32, "x": self.lit(I32)})
@@ -1209,6 +1219,11 @@ class Render:
             t = self.tup(e["sty"])
             if t[0] == "opt":
                 return "%s.(%s)" % (tyname(t), self.expr(e["x"]) if e["k"] == 1 else "nil")
+            if t == EU_EL:
+                # E!i64: the value is made by a typed local whose initialiser is the payload itself
+                # (for the error: the enum VARIANT, not yet converted to E)
+                self.t += 1
+                return "{ eu_%d : E!i64 = %s; eu_%d }" % (self.t, self.expr(e["x"]), self.t)
             if t[0] == "eu":
                 return "eu_%s_%s(%s)" % ("bi" if t == EU_BI else "pl", "ok" if e["k"] == 1 else "err", self.expr(e["x"]))
             vn, pt = t[2][e["k"] - 1]
